@@ -74,6 +74,7 @@ DONE["C04"] = (DONE["C04"][0], DONE["C04"][1], DONE["C04"][2] + "; plus loom mod
 DONE["C06"] = (DONE["C06"][0], DONE["C06"][1], DONE["C06"][2] + "; plus loom models of an abort racing a writer parked on credit (m2,m6,m9)", DONE["C06"][3], DONE["C06"][4])
 DONE["C02"] = (DONE["C02"][0], DONE["C02"][1], DONE["C02"][2] + "; plus loom models of the real write path under racing grants (m3,m8,m12)", DONE["C02"][3], DONE["C02"][4])
 DONE["C13"] = (DONE["C13"][0], DONE["C13"][1], DONE["C13"][2] + "; plus loom models of the bridge parked on credit against a racing grant / close (m19,m20,m21)", DONE["C13"][3], DONE["C13"][4])
+DONE["C15"] = (DONE["C15"][0], DONE["C15"][1], DONE["C15"][2] + "; plus the id-reuse cycles of C06's raw-peer driver (a bind request on an id the peer has just reset while the old stream is still held)", DONE["C15"][3], DONE["C15"][4])
 DONE["C10"] = (DONE["C10"][0], DONE["C10"][1], DONE["C10"][2] + "; plus the id-reuse cycles of C06's raw-peer driver (peer resets a flow and opens the id again while the old stream is still held)", DONE["C10"][3], DONE["C10"][4])
 DONE["C03"] = (DONE["C03"][0], DONE["C03"][1], DONE["C03"][2] + "; plus loom models of credit conservation under racing grants (m1,m3,m4,m8); plus the id-reuse cycles of C06's raw-peer driver (an old stream must not acknowledge on its re-opened id)", DONE["C03"][3], DONE["C03"][4])
 
